@@ -41,10 +41,40 @@ def rand_spikes(g, shape, p):
     return torch.rand(shape, generator=g) < p
 
 
+def resize_path(case):
+    """[] for the constructor-sized objects; otherwise the batch sizes the batched object goes through before it is
+    set to B with the ``batchsz`` setter (first one given to the constructor)"""
+    rz = case.get("resize")
+    return list(rz["path"]) if rz else []
+
+
+def set_batch(mods, size, clear, clear_first):
+    """batch size through the documented setters; ``clear``: the modules that do not return to their initial state
+    by themselves in the setter (synapses, connections) are cleared explicitly, before or after the resize"""
+    for m in mods:
+        if clear and clear_first:
+            m.clear()
+        m.batchsz = size
+        if clear and not clear_first:
+            m.clear()
+
+
 def run_neuron(case):
     spec, B, T = case["spec"], case["B"], case["T"]
     g = torch.Generator().manual_seed(case["seed"])
-    big = factory.build_neuron(dict(spec, batch=B))
+    path = resize_path(case)
+    big = factory.build_neuron(dict(spec, batch=path[0] if path else B))
+    if path:
+        kw0 = {"adapt": False} if spec["cls"] in factory.ADAPTIVE else {}
+        for k, b0 in enumerate(path):
+            if k:
+                big.batchsz = b0
+            for _ in range(case["resize"]["warm"]):
+                xw = (torch.rand((b0, *spec["shape"]), generator=g) * case.get("scale", 80.0) - 10.0)
+                big((xw * 8).round() / 8, **kw0)
+        big.batchsz = B        # the neuron setter itself returns the group to its initial state (no explicit clear)
+        if tuple(big.voltage.shape) != (B, *spec["shape"]):
+            return {"ok": False, "detail": f"voltage shape {tuple(big.voltage.shape)} after batchsz={B}", "what": "shape"}
     small = [factory.build_neuron(dict(spec, batch=1)) for _ in range(B)]
     adaptive = spec["cls"] in factory.ADAPTIVE
     kw = {"adapt": False} if adaptive else {}
@@ -71,10 +101,25 @@ def run_neuron(case):
 def run_synapse(case):
     spec, B, T = case["spec"], case["B"], case["T"]
     g = torch.Generator().manual_seed(case["seed"])
-    big = factory.build_synapse(dict(spec, batch=B))
+    path = resize_path(case)
+    big = factory.build_synapse(dict(spec, batch=path[0] if path else B))
     small = [factory.build_synapse(dict(spec, batch=1)) for _ in range(B)]
     worst, where, nsp = 0.0, None, 0
     dmax = spec.get("kw", {}).get("delay", 0.0)
+    if path:
+        rz = case["resize"]
+        for k, b0 in enumerate(path):
+            if k:
+                big.batchsz = b0
+            for _ in range(rz["warm"]):
+                xw = rand_spikes(g, (b0, *spec["shape"]), 0.5)
+                ew = ((torch.rand((b0, *spec["shape"]), generator=g) * 16).round() / 8,) \
+                    if spec["cls"] == "DeltaPlusCurrent" else ()
+                big(xw, *ew)
+                if dmax > 0:       # delayed reads at the old batch size (anything cached there must not survive)
+                    big.current_at(torch.rand((b0, *spec["shape"], 2), generator=g) * dmax)
+                    big.spike_at(torch.rand((b0, *spec["shape"], 2), generator=g) * dmax)
+        set_batch([big], B, True, rz.get("clear_first", False))
     for t in range(T):
         x = rand_spikes(g, (B, *spec["shape"]), 0.35)
         nsp += int(x.sum())
@@ -106,7 +151,8 @@ def run_connection(case):
     spec, B, T = case["spec"], case["B"], case["T"]
     g = torch.Generator().manual_seed(case["seed"])
     torch.manual_seed(case["seed"])
-    big = factory.build_connection(dict(spec, batch=B))
+    path = resize_path(case)
+    big = factory.build_connection(dict(spec, batch=path[0] if path else B))
     small = [factory.build_connection(dict(spec, batch=1)) for _ in range(B)]
     if spec.get("delay") is not None:
         with torch.no_grad():
@@ -117,6 +163,15 @@ def run_connection(case):
     for s in small:
         copy_params(big, s)
     worst, where, nsp = 0.0, None, 0
+    if path:
+        rz = case["resize"]
+        for k, b0 in enumerate(path):
+            if k:
+                big.batchsz = b0
+            for _ in range(rz["warm"]):
+                big(rand_spikes(g, (b0, *in_shape(big)), 0.5))
+                _ = big.syncurrent, big.synspike
+        set_batch([big], B, True, rz.get("clear_first", False))
     for t in range(T):
         x = rand_spikes(g, (B, *in_shape(big)), 0.35)
         nsp += int(x.sum())
@@ -163,7 +218,8 @@ def run_layer(case):
     spec, B, T = case["spec"], case["B"], case["T"]
     g = torch.Generator().manual_seed(case["seed"])
     torch.manual_seed(case["seed"])
-    big = factory.build_layer(with_batch(spec, B))
+    path = resize_path(case)
+    big = factory.build_layer(with_batch(spec, path[0] if path else B))
     small = [factory.build_layer(with_batch(spec, 1)) for _ in range(B)]
     scale_weights(big, case.get("wscale", 300.0))
     for s in small:
@@ -172,6 +228,20 @@ def run_layer(case):
         lay.eval()          # freezes the (documented, batch-reduced) adaptation updates
     ishape = tuple(case["in"])
     worst, where, nsp = 0.0, None, 0
+    if path:
+        # a layer has no batch size of its own: it is changed through the setters of its components
+        rz = case["resize"]
+        conns = [m for m in big.modules() if isinstance(m, neural.Connection)]
+        neus = [m for m in big.modules() if isinstance(m, neural.Neuron)]
+        for k, b0 in enumerate(path):
+            if k:
+                set_batch(conns + neus, b0, False, False)
+                big.clear(submodules=False)
+            for _ in range(rz["warm"]):
+                layer_io(big, spec, rand_spikes(g, (b0, *ishape), 0.5))
+        set_batch(conns, B, True, rz.get("clear_first", False))
+        set_batch(neus, B, False, False)     # neuron setters clear by themselves
+        big.clear(submodules=False)          # state of the layer itself (the fed-back spikes of RecurrentSerial)
     for t in range(T):
         x = rand_spikes(g, (B, *ishape), 0.5)
         ob = layer_io(big, spec, x)
@@ -201,85 +271,158 @@ def run_layer(case):
     return {"ok": worst == 0.0, "detail": where, "maxdiff": worst, "events": nsp}
 
 
-def mk_trainer(name, red):
-    k = dict(batch_reduction=red)
-    if name == "STDP":
-        return learn.STDP(1.0, -0.5, 20.0, 15.0, **k), None
-    if name == "STDP-nearest":
-        return learn.STDP(1.0, -0.5, 20.0, 15.0, trace_mode="nearest", **k), None
-    if name == "TripletSTDP":
-        return learn.TripletSTDP(1.0, 0.5, -0.5, -0.25, 20.0, 40.0, 15.0, 30.0, **k), None
-    if name == "MSTDP":
-        return learn.MSTDP(1.0, -0.5, 20.0, 15.0, **k), "signal"
-    if name == "MSTDPET":
-        return learn.MSTDPET(1.0, -0.5, 20.0, 15.0, 25.0, **k), "signal"
-    if name == "KernelSTDP":
-        return learn.KernelSTDP(functional.exp_stdp_post_kernel, functional.exp_stdp_pre_kernel,
-                                {"learning_rate": 1.0, "time_constant": 20.0},
-                                {"learning_rate": -0.5, "time_constant": 15.0}, **k), None
-    if name == "KernelSTDP-mixed":
-        # kernels that take both signs (the stock exponential kernels never do), so that a split into
-        # potentiating / depressing parts made after a batch reduction differs from the per-sample split
-        kp = lambda diff, learning_rate, time_constant, **kw: learning_rate * torch.sin(diff / time_constant)
-        kn = lambda diff, learning_rate, time_constant, **kw: learning_rate * torch.cos(diff / time_constant)
-        return learn.KernelSTDP(kp, kn, {"learning_rate": 1.0, "time_constant": 1.5},
-                                {"learning_rate": -0.5, "time_constant": 1.0}, **k), None
-    if name == "DelayAdjustedSTDP":
-        return learn.DelayAdjustedSTDP(1.0, -0.5, 20.0, 15.0, **k), None
-    if name == "DelayAdjustedSTDPD":
-        return learn.DelayAdjustedSTDPD(-0.5, 1.0, 15.0, 20.0, **k), None
-    if name == "DelayAdjustedMSTDP":
-        return learn.DelayAdjustedMSTDP(1.0, -0.5, 20.0, 15.0, **k), "signal"
-    raise ValueError(name)
+def _kp(diff, learning_rate, time_constant, **kw):
+    return learning_rate * torch.sin(diff / time_constant)
+
+
+def _kn(diff, learning_rate, time_constant, **kw):
+    return learning_rate * torch.cos(diff / time_constant)
+
+
+# name -> (class, hyperparameters (constructor order), further keyword hyperparameters, needs a reward signal)
+TRAINER_HP = {
+    "STDP": ("STDP", dict(lr_post=1.0, lr_pre=-0.5, tc_post=20.0, tc_pre=15.0), {"trace_mode": "cumulative"}, False),
+    "STDP-nearest": ("STDP", dict(lr_post=1.0, lr_pre=-0.5, tc_post=20.0, tc_pre=15.0), {"trace_mode": "nearest"}, False),
+    "STDP-antihebbian": ("STDP", dict(lr_post=-1.0, lr_pre=0.5, tc_post=20.0, tc_pre=15.0), {"trace_mode": "cumulative"}, False),
+    "STDP-ltp": ("STDP", dict(lr_post=1.0, lr_pre=0.5, tc_post=20.0, tc_pre=15.0), {"trace_mode": "cumulative"}, False),
+    "STDP-ltd": ("STDP", dict(lr_post=-1.0, lr_pre=-0.5, tc_post=20.0, tc_pre=15.0), {"trace_mode": "cumulative"}, False),
+    "TripletSTDP": ("TripletSTDP", dict(lr_post_pair=1.0, lr_post_triplet=0.5, lr_pre_pair=-0.5, lr_pre_triplet=-0.25,
+                                        tc_post_fast=20.0, tc_post_slow=40.0, tc_pre_fast=15.0, tc_pre_slow=30.0),
+                    {"trace_mode": "cumulative"}, False),
+    "MSTDP": ("MSTDP", dict(lr_post=1.0, lr_pre=-0.5, tc_post=20.0, tc_pre=15.0), {"trace_mode": "cumulative"}, True),
+    "MSTDPET": ("MSTDPET", dict(lr_post=1.0, lr_pre=-0.5, tc_post=20.0, tc_pre=15.0, tc_eligibility=25.0),
+                {"trace_mode": "cumulative"}, True),
+    "KernelSTDP": ("KernelSTDP", dict(kernel_post=functional.exp_stdp_post_kernel, kernel_pre=functional.exp_stdp_pre_kernel,
+                                      kernel_post_kwargs={"learning_rate": 1.0, "time_constant": 20.0},
+                                      kernel_pre_kwargs={"learning_rate": -0.5, "time_constant": 15.0}), {}, False),
+    # kernels that take both signs (the stock exponential kernels never do), so that a split into
+    # potentiating / depressing parts made after a batch reduction differs from the per-sample split
+    "KernelSTDP-mixed": ("KernelSTDP", dict(kernel_post=_kp, kernel_pre=_kn,
+                                            kernel_post_kwargs={"learning_rate": 1.0, "time_constant": 1.5},
+                                            kernel_pre_kwargs={"learning_rate": -0.5, "time_constant": 1.0}), {}, False),
+    "DelayAdjustedSTDP": ("DelayAdjustedSTDP", dict(lr_pos=1.0, lr_neg=-0.5, tc_pos=20.0, tc_neg=15.0), {}, False),
+    "DelayAdjustedSTDPD": ("DelayAdjustedSTDPD", dict(lr_neg=-0.5, lr_pos=1.0, tc_neg=15.0, tc_pos=20.0), {}, False),
+    "DelayAdjustedMSTDP": ("DelayAdjustedMSTDP", dict(lr_pos=1.0, lr_neg=-0.5, tc_pos=20.0, tc_neg=15.0), {}, True),
+    "DelayAdjustedMSTDPD": ("DelayAdjustedMSTDPD", dict(lr_neg=-0.5, lr_pos=1.0, tc_neg=15.0, tc_pos=20.0), {}, True),
+}
+
+
+def _vary(v, klr, ktc, key=None):
+    """hyperparameters of the same kind with other values (learning rates scaled by klr, time constants by ktc)"""
+    if isinstance(v, dict):
+        return {k: _vary(x, klr, ktc, k) for k, x in v.items()}
+    if isinstance(v, float):
+        if key.startswith("lr") or key == "learning_rate":
+            return v * klr
+        if key.startswith("tc") or key == "time_constant":
+            return v * ktc
+    if key == "trace_mode":
+        return v if klr > 0 else {"nearest": "cumulative", "cumulative": "nearest"}[v]
+    return v
+
+
+def cell_hp(name, j):
+    """true hyperparameters of the j-th cell trained by a trainer of kind ``name``"""
+    _, hp, extra, _ = TRAINER_HP[name]
+    return _vary(dict(hp, **extra), 1.0 + 0.5 * j, 1.0 + 0.25 * j)
+
+
+def mk_trainer(name, red, decoy=None):
+    """decoy=None: trainer whose constructor-level hyperparameters are the true ones of cell 0 (reduction ``red``);
+    otherwise a trainer whose constructor-level defaults are all *different* from what any cell uses (learning rates of
+    the opposite sign, other time constants / trace mode, reduction ``decoy`` (None = the library default, mean)):
+    every cell must then be registered with the true values as per-cell overrides"""
+    cls, hp, extra, needs = TRAINER_HP[name]
+    if decoy is None:
+        return getattr(learn, cls)(**cell_hp(name, 0), batch_reduction=red), ("signal" if needs else None)
+    kw = _vary(dict(hp, **extra), -1.5, 1.75)
+    return getattr(learn, cls)(**kw, batch_reduction=decoy["reduction"]), ("signal" if needs else None)
+
+
+REDUCTIONS = {"none": None, "mean": torch.mean, "amax": torch.amax, "amin": torch.amin, "sum": torch.sum}
 
 
 def run_trainer(case):
-    """batched training step with sum reduction == sum of per-sample steps (accumulated parts compared)"""
+    """batched training step with sum reduction == sum of per-sample steps (accumulated parts compared).
+
+    case["hp"]: "trainer" (default; sum and the other hyperparameters given to the trainer constructor), "cell"
+    (given only as register_cell overrides, trainer-level defaults differ), "mixed" (cell 0 uses the trainer-level
+    values, the other cells override).  case["cells"]: number of cells driven by ONE trainer object.
+    case["shared"]: the batched cells and all their batch-1 copies are driven by one and the same trainer object."""
     spec, B, T = case["spec"], case["B"], case["T"]
     g = torch.Generator().manual_seed(case["seed"])
-    torch.manual_seed(case["seed"])
-    big = factory.build_layer(with_batch(spec, B))
-    small = [factory.build_layer(with_batch(spec, 1)) for _ in range(B)]
-    scale_weights(big, case.get("wscale", 300.0))
-    if spec["connection"].get("delay") is not None:
-        with torch.no_grad():
-            big.connection.delay = ((torch.rand(big.connection.delay.shape, generator=g) * spec["connection"]["delay"])
-                                    / spec["connection"]["dt"]).round() * spec["connection"]["dt"]
-    for s in small:
-        copy_params(big, s)
-    param = "delay" if case["trainer"].endswith("D") and case["trainer"].startswith("DelayAdjusted") else "weight"
-    tb, needs = mk_trainer(case["trainer"], torch.sum)
-    ts = [mk_trainer(case["trainer"], torch.sum)[0] for _ in range(B)]
-    for lay, tr in [(big, tb)] + list(zip(small, ts)):
+    nc, mode, name = case.get("cells", 1), case.get("hp", "trainer"), case["trainer"]
+    bigs, smalls = [], []
+    for j in range(nc):
+        torch.manual_seed(case["seed"] + j)
+        big = factory.build_layer(with_batch(spec, B))
+        small = [factory.build_layer(with_batch(spec, 1)) for _ in range(B)]
+        scale_weights(big, case.get("wscale", 300.0))
+        if spec["connection"].get("delay") is not None:
+            with torch.no_grad():
+                big.connection.delay = ((torch.rand(big.connection.delay.shape, generator=g) * spec["connection"]["delay"])
+                                        / spec["connection"]["dt"]).round() * spec["connection"]["dt"]
+        for s in small:
+            copy_params(big, s)
+        bigs.append(big)
+        smalls.append(small)
+    param = "delay" if name.endswith("D") and name.startswith("DelayAdjusted") else "weight"
+    needs = TRAINER_HP[name][3]
+    shared = bool(case.get("shared")) and not needs
+
+    def make():
+        if mode == "cell":
+            return mk_trainer(name, None, {"reduction": REDUCTIONS[case.get("default_reduction", "none")]})[0]
+        return mk_trainer(name, torch.sum)[0]
+
+    def register(tr, nm, lay, j):
         lay.connection.updater = lay.connection.defaultupdater()
-        tr.register_cell("c", lay.cell)
+        if mode == "cell" or (mode == "mixed" and j > 0):
+            tr.register_cell(nm, lay.cell, **cell_hp(name, j), batch_reduction=torch.sum)
+        else:
+            tr.register_cell(nm, lay.cell)
+
+    tb = make()
+    ts = [tb if shared else make() for _ in range(B)]
+    for j in range(nc):
+        register(tb, f"c{j}", bigs[j], j)
+        for b in range(B):
+            register(ts[b], f"c{j}s{b}" if shared else f"c{j}", smalls[j][b], j)
     ishape = tuple(case["in"])
     worst, where, nz = 0.0, None, 0
     for t in range(T):
-        x = rand_spikes(g, (B, *ishape), 0.5)
+        xs = [rand_spikes(g, (B, *ishape), 0.5) for _ in range(nc)]
         sig = ((torch.rand(B, generator=g) * 4 - 2) * 4).round() / 4 if needs else None
-        big(x)
-        tb(sig) if needs else tb()
-        acc = getattr(big.connection.updater, param)
-        pos_b, neg_b = acc.pos, acc.neg
-        pos_s, neg_s = 0.0, 0.0
+        for j in range(nc):
+            bigs[j](xs[j])
+        if not shared:
+            tb(sig) if needs else tb()
         for b in range(B):
-            small[b](x[b:b + 1])
-            ts[b](sig[b:b + 1]) if needs else ts[b]()
-            a = getattr(small[b].connection.updater, param)
-            pos_s = pos_s + (a.pos if a.pos is not None else 0.0)
-            neg_s = neg_s + (a.neg if a.neg is not None else 0.0)
-        for nm, u, v in (("pos", pos_b, pos_s), ("neg", neg_b, neg_s)):
-            if u is None and not torch.is_tensor(v):
-                continue
-            if u is None or not torch.is_tensor(v):
-                return {"ok": False, "detail": f"step {t}: {nm} part present on one side only", "what": "presence"}
-            nz += int((u != 0).sum())
-            d = maxdiff(u, v)
-            if d > worst:
-                worst, where = d, f"step {t} {nm}"
-        for lay in [big] + small:
-            lay.connection.updater.clear()
+            for j in range(nc):
+                smalls[j][b](xs[j][b:b + 1])
+            if not shared:
+                ts[b](sig[b:b + 1]) if needs else ts[b]()
+        if shared:
+            tb()
+        for j in range(nc):
+            acc = getattr(bigs[j].connection.updater, param)
+            pos_b, neg_b = acc.pos, acc.neg
+            pos_s, neg_s = 0.0, 0.0
+            for b in range(B):
+                a = getattr(smalls[j][b].connection.updater, param)
+                pos_s = pos_s + (a.pos if a.pos is not None else 0.0)
+                neg_s = neg_s + (a.neg if a.neg is not None else 0.0)
+            for nm, u, v in (("pos", pos_b, pos_s), ("neg", neg_b, neg_s)):
+                if u is None and not torch.is_tensor(v):
+                    continue
+                if u is None or not torch.is_tensor(v):
+                    return {"ok": False, "detail": f"step {t} cell {j}: {nm} part present on one side only", "what": "presence"}
+                nz += int((u != 0).sum())
+                d = maxdiff(u, v)
+                if d > worst:
+                    worst, where = d, f"step {t} cell {j} {nm}"
+            for lay in [bigs[j]] + smalls[j]:
+                lay.connection.updater.clear()
     return {"ok": worst == 0.0, "detail": where, "maxdiff": worst, "events": nz}
 
 
